@@ -26,6 +26,8 @@ struct Scen {
     f32_: bool,
     /// multiplicative offsets of the start from the truth, per fit
     start: f64,
+    /// the model stores parameters first and precomputes afterwards (stale matrices after a failed set_params)
+    precomputing: bool,
 }
 
 fn fam_by_name(s: &str) -> Family {
@@ -48,7 +50,7 @@ fn wk_by_name(s: &str) -> WKind {
     }
 }
 fn scen_json(s: &Scen) -> Value {
-    json!({"fam": s.fam.name(), "n": s.n, "s": s.s, "prov": s.prov.name(), "par": s.par, "w": format!("{:?}", s.w), "scalar": if s.f32_ {"f32"} else {"f64"}, "start": s.start})
+    json!({"fam": s.fam.name(), "n": s.n, "s": s.s, "prov": s.prov.name(), "par": s.par, "w": format!("{:?}", s.w), "scalar": if s.f32_ {"f32"} else {"f64"}, "start": s.start, "precomputing": s.precomputing})
 }
 fn scen_parse(v: &Value) -> Scen {
     Scen {
@@ -60,6 +62,7 @@ fn scen_parse(v: &Value) -> Scen {
         w: wk_by_name(v["w"].as_str().unwrap()),
         f32_: v["scalar"] == "f32",
         start: v["start"].as_f64().unwrap(),
+        precomputing: v["precomputing"].as_bool().unwrap_or(false),
     }
 }
 
@@ -88,7 +91,8 @@ impl<T: Sc> Env<T> {
         Env { spec, y: mat_t(&y), w: sc.w.make(sc.n).map(|w| vec_t::<T>(&w)), api: if sc.s == 1 { Api::Single } else { Api::Mrhs }, alphas, fresh: Default::default() }
     }
     fn build(&self, sc: &Scen, plan: Arc<FaultPlan>) -> Box<dyn Prob<T>> {
-        let model = Faulty::wrap(make::<T>(&self.spec, sc.prov, &self.alphas[0]), plan);
+        let base = make::<T>(&self.spec, sc.prov, &self.alphas[0]);
+        let model = if sc.precomputing { Precomputing::wrap(base, plan) } else { Faulty::wrap(base, plan) };
         prob::build(model, &self.y, self.w.as_ref(), None, self.api, sc.par).expect("builds")
     }
     /// observation of a freshly built, un-faulted problem whose model starts at `a`
@@ -441,7 +445,10 @@ fn scenarios(thorough: bool) -> Vec<Scen> {
                                 continue;
                             }
                         }
-                        v.push(Scen { fam: fam.clone(), n: 8 + 2 * fi, s, prov, par, w, f32_, start });
+                        v.push(Scen { fam: fam.clone(), n: 8 + 2 * fi, s, prov, par, w, f32_, start, precomputing: false });
+                        if prov == Prov::Hand && !f32_ && (thorough || (w == WKind::None && s == 1)) {
+                            v.push(Scen { fam: fam.clone(), n: 8 + 2 * fi, s, prov, par, w, f32_, start, precomputing: true });
+                        }
                     }
                 }
             }
